@@ -132,7 +132,7 @@ class C13(Check):
     TRACE_FILES = ('modulebase.py',)
     TIERS = {'quick': {'runs': 1600, 'wall': 70}, 'thorough': {'runs': 150000, 'wall': 780}}
     MAX_STEPS = 1_200_000
-    RULE = ('case = generated module set (1..4 modules on one poll thread, intervals, slow interval, scripted '
+    RULE = ('[a quarter of the modules register a failing callback on pollinterval; optionally an unpolled module with a configured write] ' 'case = generated module set (1..4 modules on one poll thread, intervals, slow interval, scripted '
             'read durations/failures) + commander operations (interval change, fast poll, immediate trigger, '
             'clock jump); distinct = different (case digest, schedule digest); non-trivial = the poll thread '
             'completed >= 3 main polls and the run had >= 1 scheduling decision among >= 2 runnable tasks')
